@@ -170,12 +170,21 @@ def run(ck):
         calls.append("c9 output_all 2"); calls.append("c9 state")
         for ty, data in ((0xA0, [0]), (0xA1, [0]), (0xA3, [0, 0x23, 0x01]), (0xE2, [0x23, 0x01, 1]), (0xB8, [2, 1, 2, 0, 0]), (0xC0, [0x12, 0, 1]), (0xB0, [0x80]), (0xE1, [3])):
             calls.append("rx " + hexs(flowgen.frame(flowgen.upmsg([1], 0, ty, data))))
+        # the same state reports from a node address where no board is connected (look-ups fail: error paths), each followed later
+        # by node notices (writers of the board table): a lock leaked on the failing look-up blocks the next writer
+        for ty, data in ((0xA0, [0]), (0xA1, [0]), (0xA3, [0, 0x23, 0x01]), (0xA2, [0, 8, 1]), (0xE2, [0x23, 0x01, 1]), (0xB8, [2, 1, 2, 0, 0]), (0xC0, [0x12, 0, 1]), (0xB0, [0x80]), (0xB0, [0x01]),
+                         (0xB2, [0, 1, 1, 2]), (0xE1, [3]), (0x93, [1, 65, 1, 66]), (0xAC, [1, 2, 3, 4, 5]), (0xA7, [1, 2, 3]), (0xA5, [1, 2]), (0xA6, [0x23, 0x01, 5, 0])):
+            calls.append("rx " + hexs(flowgen.frame(flowgen.upmsg([9], 0, ty, data))))
         # node notices about nodes that are NOT configured: a plain node and an interface (class bit 0x80: its subtree is walked),
         # as new and as lost, from the root and from a sub-interface
         for uidx in ([0x00, 0x00, 0x0D, 0x68, 0x00, 0x02, 0x01], [0x80, 0x00, 0x0D, 0x68, 0x00, 0x02, 0x02], [0x90, 0x00, 0x0D, 0x68, 0x00, 0x02, 0x03]):
             for snd in ([], [1]):
                 for ty in (0x8D, 0x8C, 0x8C):
                     calls.append("rx " + hexs(flowgen.frame(flowgen.upmsg(snd, 0, ty, [7, 5] + uidx))))
+    # more error-class messages than a user queue holds (128), none of them read: the overflow path of the queue
+    for i_ in range(131): calls.append("rx " + hexs(flowgen.frame(flowgen.upmsg([1], 0, 0x8B if i_ % 2 else 0x86, [i_ % 7, 1]))))
+    for i_ in range(131): calls.append("rx " + hexs(flowgen.frame(flowgen.upmsg([1], 0, 0x82, [i_]))))
+    calls += ["reade", "readq"]
     # every public getter that takes an id (known, unknown, NULL) and the whole-state getters
     for g, ids in (("point_state", ("point1", "point2")), ("signal_state", ("signal1",)), ("peripheral_state", ("led1",)), ("segment_state", ("seg1", "seg3")),
                    ("reverser_state", ("reverser1",)), ("train_state", ("train1",)), ("train_position", ("train1",)), ("train_on_track", ("train2",)),
